@@ -432,6 +432,13 @@ seed("C18", "reader-nonblocking-pool-receive", "the reader allocates a buffer wh
 seed("C20", "emit-through-printf", "the limiter emits through log.Printf(s)", ["C20.G1"],
      ("loglimiter/loglimiter.go", "\tlog.Print(s)\n", "\tlog.Printf(s)\n"))
 
+seed("C14", "frames-dropped-while-busy", "handleConn skips Process for every other frame in the first minute", ["C14.M2"],
+     ("cmd/thermal-recorder/main.go", "\t\terr = processor.Process(rawFrame)\n", "\t\tif totalFrames < 10 && totalFrames%2 == 0 {\n\t\t\tcontinue\n\t\t}\n\t\terr = processor.Process(rawFrame)\n"))
+seed("C18", "reader-drops-frames-when-queue-long", "the reader forwards a frame only while the write queue is short", ["C18.W2"],
+     ("cmd/thermal-writer/main.go", "\t\twriteFrames <- frame\n", "\t\tif len(writeFrames) > inFlight/2 {\n\t\t\tspentFrames <- frame\n\t\t\tcontinue\n\t\t}\n\t\twriteFrames <- frame\n"))
+seed("C18", "writer-skips-empty-looking-frames", "the writer skips frames whose first byte is zero", ["C18.W2"],
+     ("cmd/thermal-writer/main.go", "\t\t\tif err := writeFrame(builder, frame); err != nil {\n\t\t\t\tpanic(err)\n\t\t\t}\n", "\t\t\tif frame[0] != 0 {\n\t\t\t\tif err := writeFrame(builder, frame); err != nil {\n\t\t\t\t\tpanic(err)\n\t\t\t\t}\n\t\t\t}\n"))
+
 here = os.path.dirname(os.path.abspath(__file__))
 for pid, name, d in S:
     os.makedirs(os.path.join(here, pid), exist_ok=True)
